@@ -7,7 +7,8 @@ from props.C01 import ASSUMPTIONS as A01, TRUSTED as T01
 ME = "amr_kitchen.menu.menu.Menu."
 ASSUMPTIONS = ["the regular-expression database of menu is data of the program; `re` is opaque",
                "fragment extraction: the column-padding statements of show_min_max executed in isolation",
-               "listing / classification / formatting are covered by the bounded run-time layer (parsed stdout) in this round"]
+               "listing / classification / formatting are covered by the bounded run-time layer (parsed stdout)",
+               "extrema: real arithmetic without NaN; np.min / np.max are 'a bound of every element, attained somewhere' (numpy contract)"]
 TRUSTED = ["python re, str.format of floats, pickle (opaque)", "PyVC executor and z3"]
 
 
@@ -33,6 +34,7 @@ class TableCoverage(FragmentTask):
     qual = ME + "show_min_max"
     first = staticmethod(lambda s: __import__("ast").dump(s).find("min_max_data") >= 0 and s.__class__.__name__ == "If")
     last = staticmethod(FragmentTask.assigns("middle"))
+    unordered = True
 
     def __init__(self):
         self.name = "show_min_max.two-column-coverage"
@@ -57,14 +59,70 @@ class TableCoverage(FragmentTask):
         ctx.oblige("post.at-most-one-padding-entry", zand(to_z3(total) >= inp["n"], to_z3(total) <= inp["n"] + 1), "P")
 
 
+class Extrema(FragmentTask):
+    """find_min_max, the statement choosing the extrema of one field: over the per-box header tables of ALL levels 0..limit
+    (or of the finest level when asked) the reported minimum is a lower bound of every table entry and is one of them, and
+    dually for the maximum.  Levels are a skeleton parameter; boxes per level and table values are unbounded."""
+    prop = "C18"
+    reach = "S"
+    qual = ME + "find_min_max"
+    first = staticmethod(lambda s: s.__class__.__name__ == "If" and "finest_lv" in __import__("ast").unparse(s.test))
+    last = first
+
+    def __init__(self, nlevels, finest):
+        self.nlevels, self.finest = nlevels, finest
+        self.name = f"find_min_max.extrema[levels={nlevels},{'finest' if finest else 'all'}]"
+
+    def setup(self, ex):
+        ctx = ex.ctx
+        I, R = z3.IntSort(), z3.RealSort()
+        nl = self.nlevels
+        NB = [z3.Int(f"nb{lv}") for lv in range(nl)]
+        for n in NB:
+            ctx.assume(n >= 1)
+        MINS, MAXS = z3.Function("MINS", I, I, R), z3.Function("MAXS", I, I, R)
+        field = "the_field"
+        cells = [{"mins": {field: NDArray([NB[lv]], lambda ix, lv=lv: MINS(lv, to_z3(ix[0])), "f8")},
+                  "maxs": {field: NDArray([NB[lv]], lambda ix, lv=lv: MAXS(lv, to_z3(ix[0])), "f8")}} for lv in range(nl)]
+        self_ = Record("amr_kitchen.menu.menu.Menu", finest_lv=self.finest, cells=cells, limit_level=nl - 1)
+        return {"frame": {"self": self_, "field": field}, "NB": NB, "MINS": MINS, "MAXS": MAXS}
+
+    def post(self, ex, inp, out):
+        ctx = ex.ctx
+        ctx.oblige("raises-nothing", out.kind == "ret", "P", note=str(out.exc) if out.kind != "ret" else "")
+        if out.kind != "ret":
+            return
+        mn, mx = out.value.get("minimum"), out.value.get("maximum")
+        ok = mn is not None and mx is not None and is_z3(to_z3(mn)) and is_z3(to_z3(mx))
+        ctx.oblige("post.fragment-defines-minimum-and-maximum", ok, "P")
+        if not ok:
+            return
+        NB, MINS, MAXS = inp["NB"], inp["MINS"], inp["MAXS"]
+        levels = [self.nlevels - 1] if self.finest else list(range(self.nlevels))
+        b = ctx.fresh("b")
+        for lv in levels:
+            ctx.oblige(f"post.minimum-bounds-every-box-of-level-{lv}", z3.Implies(z3.And(b >= 0, b < NB[lv]), to_z3(mn) <= MINS(lv, b)), "P")
+            ctx.oblige(f"post.maximum-bounds-every-box-of-level-{lv}", z3.Implies(z3.And(b >= 0, b < NB[lv]), to_z3(mx) >= MAXS(lv, b)), "P")
+        q = z3.Int("qb")
+        ctx.oblige("post.minimum-is-attained", z3.Or(*[z3.Exists([q], z3.And(q >= 0, q < NB[lv], to_z3(mn) == MINS(lv, q))) for lv in levels]), "P")
+        ctx.oblige("post.maximum-is-attained", z3.Or(*[z3.Exists([q], z3.And(q >= 0, q < NB[lv], to_z3(mx) == MAXS(lv, q))) for lv in levels]), "P")
+
+
 def tasks(tier):
-    return [TableCoverage()]
+    out = [TableCoverage(), Extrema(2, False), Extrema(2, True)]
+    if tier == "thorough":
+        out += [Extrema(1, False), Extrema(3, False), Extrema(3, True)]
+    return out
 
 
 def canaries(tier):
     return [("min/max table: padding test back to 'not len//2'",
              [("amr_kitchen/menu/menu.py", "if len(min_max_data) % 2:", "if not len(min_max_data)//2:")],
-             ["show_min_max.two-column-coverage"])]
+             ["show_min_max.two-column-coverage"]),
+            ("min/max: the finest level left out of the absolute extrema",
+             [("amr_kitchen/menu/menu.py", "minimum = np.min([self.cells[lv][\"mins\"][field].min() for lv in range(self.limit_level + 1)])",
+               "minimum = np.min([self.cells[lv][\"mins\"][field].min() for lv in range(self.limit_level)])")],
+             ["find_min_max.extrema[levels=2,all]"])]
 
 
 SCENARIO_TIMEOUT = 300
